@@ -163,7 +163,14 @@ class TMGRSchedulingComponent(rpu.ClientComponent):
                 current = self._pilots[pid]['state']
 
                 # enforce state model order
-                target, passed = rps._pilot_state_progress(pid, current, target)
+                try:
+                    target, passed = rps._pilot_state_progress(pid, current,
+                                                               target)
+                except ValueError as e:
+                    # contradicting final state: keep the recorded state, but
+                    # do handle the remaining pilots of this notification
+                    self._log.warning('ignore pilot state update: %s', e)
+                    continue
 
                 if current != target:
                     to_update.append(pid)
